@@ -242,13 +242,25 @@ def main():
         for f in sorted(os.listdir(d)):
             if f.startswith("final-") and f.endswith(".json"):
                 fin = json.load(open(os.path.join(d, f)))
+        if not fin:
+            # rounds five and seven were written for (and run on) the final tree: the target
+            # check's result is that of the matrix, or of the re-run after a strengthening
+            sp = os.path.join(d, "strengthened.json")
+            fin = json.load(open(sp)) if os.path.exists(sp) else res
+            if fin and os.path.exists(sp):
+                fin = dict(fin)
+                fin["detected_by"] = sorted(set(fin.get("detected_by", [])) & {name.split("-")[0]}) or fin.get("detected_by", [])
         if fin:
             if not fin.get("patch_applies"):
                 status = "does not apply (superseded by later repairs)"
             elif not fin.get("valid"):
                 status = "applies, but its demonstration no longer fails: neutralised by a later repair" if fin.get("demo_passes_unpatched") else "not valid on the repaired tree"
             elif fin.get("detected_by"):
-                status = "reported by " + ", ".join(fin["detected_by"])
+                tgt = name.split("-")[0]
+                det = fin["detected_by"]
+                status = "reported by " + (tgt if tgt in det else ", ".join(det) + " (not by " + tgt + ")")
+                if os.path.exists(os.path.join(d, "strengthened.json")):
+                    status += " (after the strengthening described above)"
             else:
                 status = "not reported"
             meta["at_final_head"] = {"repo_head": fin.get("repo_head"), "status": status}
